@@ -80,6 +80,10 @@ structure Env where
   /-- the declared field names of class `c`, in declaration order (used by the `Comparable`
   class of the theorems only; no model function reads it). -/
   fields : Nat → List Atom := fun _ => []
+  /-- class `c` has a variable-key schema (`pg.typing.StrKey()` fields, a symbolized function /
+  class taking `**kwargs`): its attributes are listed in the order in which the keywords were given;
+  `Object.sym_lt` compares them as a dict (fix F285). -/
+  dyn : Nat → Bool := fun _ => false
 
 /-! ### Equality (`eq`, `ne`) -/
 
@@ -248,13 +252,14 @@ def sortItems (env : Env) : List (Atom × Val) → List (Atom × Val)
   | (k, v) :: rest => insertItem env k v (sortItems env rest)
 
 mutual
-  /-- every dict with its keys sorted (object attributes keep their declaration order). -/
+  /-- every dict with its keys sorted (object attributes keep their declaration order, unless the
+  class has a variable-key schema: then they are sorted as the keys of a dict — fix F285). -/
   def canon (env : Env) : Val → Val
     | .atom a => .atom a
     | .list s xs => .list s (canonList env xs)
     | .tuple xs => .tuple (canonList env xs)
     | .dict s kvs => .dict s (sortItems env (canonItems env kvs))
-    | .obj c kvs => .obj c (canonItems env kvs)
+    | .obj c kvs => .obj c (if env.dyn c then sortItems env (canonItems env kvs) else canonItems env kvs)
   def canonList (env : Env) : List Val → List Val
     | [] => []
     | x :: xs => canon env x :: canonList env xs
@@ -304,7 +309,10 @@ def ltF (env : Env) : Nat → Val → Val → Except Err Bool
       | .tuple xs, .tuple ys => pySeqLt xs ys
       | .dict _ xs, .dict _ ys => ltItemsBy env (ltF env n) (sortItems env xs) (sortItems env ys)
       | .obj c xs, .obj d ys =>
-          if c = d then ltItemsBy env (ltF env n) xs ys else .error .recursionError
+          if c = d then
+            (if env.dyn c then ltItemsBy env (ltF env n) (sortItems env xs) (sortItems env ys)
+             else ltItemsBy env (ltF env n) xs ys)
+          else .error .recursionError
       | _, _ => .error .typeError
 
 mutual
